@@ -26,7 +26,7 @@ from typing import Any, Callable, Dict, List, Optional, Tuple
 
 from . import algebra as A
 from .algebra import RF
-from .loader import AnalysisError, ClassInfo, Func, Module, Program, dotted, norm
+from .loader import AnalysisError, ClassInfo, Func, Module, Program, deco_name, dotted, norm
 
 
 _KEY_OBJ: Dict[Any, Any] = {}
@@ -137,10 +137,11 @@ class ClassRef(AV):
 
 
 class FuncRef(AV):
-    __slots__ = ('func', 'self_val', 'closure', 'lam', 'module')
+    __slots__ = ('func', 'self_val', 'closure', 'lam', 'module', 'raw')
 
-    def __init__(self, func: Optional[Func], self_val: Optional[AV] = None, closure=None, lam=None, module=None):
+    def __init__(self, func: Optional[Func], self_val: Optional[AV] = None, closure=None, lam=None, module=None, raw=False):
         self.func, self.self_val, self.closure, self.lam, self.module = func, self_val, closure, lam, module
+        self.raw = raw          # the bare function as a decorator receives it: its own decorators are not applied again
 
     def __repr__(self):
         return f'<func {self.func.qualname if self.func else "lambda"}>'
@@ -1277,7 +1278,7 @@ class Evaluator:
             if any(d.split('(')[0].split('.')[-1] in ('lru_cache', 'cache') for d in fv.func.decorators):
                 # a memoised function hands back whatever an earlier call with equal arguments produced
                 return SymObj(f'{fv.func.qualname}({", ".join(self.describe(a_) for a_ in args)})@memo')
-            return self.call_func(fv.func, args, kwargs, st, ctx, self_val=fv.self_val, closure=fv.closure)
+            return self.call_func(fv.func, args, kwargs, st, ctx, self_val=fv.self_val, closure=fv.closure, raw=fv.raw)
         if isinstance(fv, ClassRef):
             return self.construct(fv.ci, args, kwargs, st, ctx)
         if isinstance(fv, ExtRef):
@@ -1432,7 +1433,7 @@ class Evaluator:
         return env
 
     def call_func(self, func: Func, args: List[AV], kwargs: Dict[str, AV], st: State, ctx: Ctx,
-                  self_val: Optional[AV] = None, closure: Optional[State] = None) -> AV:
+                  self_val: Optional[AV] = None, closure: Optional[State] = None, raw: bool = False) -> AV:
         hook = self.hooks.get(f'call:{func.qualname}')
         if hook is not None:
             r = hook(self, func, args, kwargs, st, self_val)
@@ -1441,10 +1442,24 @@ class Evaluator:
         if self.is_opaque(func):
             path = func.qualname if self_val is None else f'{self.describe(self_val)}.{func.name}'
             return self.sym_call(path, args, kwargs)
-        for d_ in func.decorators:
-            if d_.split('.')[-1] not in TRANSPARENT_DECORATORS:
-                # a wrapper around the body: reading the bare body would misread the function
-                raise Undecided(f'{func.qualname} is wrapped by the decorator `{d_}`, which the evaluator does not apply')
+        if not raw and any(d_.split('.')[-1] not in TRANSPARENT_DECORATORS for d_ in func.decorators):
+            # a wrapper around the body: reading the bare body would misread the function.  The decorators of the package
+            # are applied as Python does - innermost first, each called on the function object it receives - and the
+            # result is what gets called; anything else about the definition (static / class method, property) declines
+            if func.is_static or func.is_classmethod or func.is_property or func.is_setter or closure is not None \
+                    or ctx.depth + 2 >= self.max_depth:
+                raise Undecided(f'{func.qualname} is wrapped by a decorator in a position the evaluator does not apply')
+            wrapped: AV = FuncRef(func, raw=True)
+            dctx = Ctx(func.module, None, None, ctx.depth + 1)
+            for d_node in reversed(func.node.decorator_list):
+                if deco_name(d_node).split('.')[-1] in TRANSPARENT_DECORATORS:
+                    continue
+                dv = self.eval(d_node, State({}, st.heap, []), dctx)
+                wrapped = self.lift(lambda w_, dv=dv: self.call(dv, [w_], {}, st, dctx), wrapped)
+            if isinstance(wrapped, FuncRef) and wrapped.func is func and wrapped.raw:
+                raise Undecided(f'{func.qualname}: decorator returned the function itself in a way not followed')
+            full = ([self_val] if self_val is not None else []) + list(args)
+            return self.lift(lambda w_: self.call(w_, full, kwargs, st, Ctx(ctx.module, ctx.func, ctx.closure, ctx.depth + 1)), wrapped)
         if ctx.depth >= self.max_depth:
             raise Undecided(f'inlining depth exceeded at {func.qualname}')
         needs_self = func.cls is not None and func.outer is None and not func.is_static
@@ -2044,6 +2059,10 @@ class Evaluator:
                 f = ctx.func.nested.get(s.name) if ctx.func is not None else None
                 if f is None:
                     raise Undecided(f'nested def {s.name}')
+                if ctx.closure is not None:
+                    # free variables of the enclosing function's own enclosing scope stay readable from the inner one
+                    for k_, v_ in ctx.closure.env.items():
+                        st.env.setdefault(k_, v_)
                 st.env[s.name] = FuncRef(f, closure=st)
                 continue
             if isinstance(s, ast.Assert):
